@@ -24,17 +24,24 @@ def given (o : Option Str) : Option Str :=
   | some s => if s.isEmpty then none else some s
   | none => none
 
+/-- CA file: the explicit option, else the environment bundle when it names a file. -/
+def caFile (o : SslOpt) (env : TlsEnv) : Option Str :=
+  match o.caCerts with
+  | some f => some f
+  | none => if env.isFile then given env.bundle else none
+
+/-- CA directory: the explicit option, else the environment bundle when it names a directory. -/
+def caPath (o : SslOpt) (env : TlsEnv) : Option Str :=
+  match o.caCertPath with
+  | some p => some p
+  | none => if env.isDir then given env.bundle else none
+
 /-- trust store: explicit options first, the environment bundle for whichever of file / directory
     was not given explicitly; the system store when nothing is named. -/
 def caSource (o : SslOpt) (env : TlsEnv) : CaSource :=
-  let bundle := given env.bundle
-  let cafile := match o.caCerts with
-    | some f => some f
-    | none => if env.isFile then bundle else none
-  let capath := match o.caCertPath with
-    | some p => some p
-    | none => if env.isDir then bundle else none
-  if (given cafile).isSome ∨ (given capath).isSome then .locations cafile capath else .default
+  if (given (caFile o env)).isSome ∨ (given (caPath o env)).isSome then
+    .locations (caFile o env) (caPath o env)
+  else .default
 
 /-- the name that is checked and sent as SNI. -/
 def peerName (o : SslOpt) (urlHost : Str) : Str :=
